@@ -44,6 +44,7 @@ def run(tier, seed, t0):
         jobs.append(j("cmp-small-fftw", "optim", "fftw", ["--seed", seed, "--threads", "2,8,16", "--rounds", 2], weight=8))
         jobs.append(j("cmp-default128-spqlios-fma", "optim", "spqlios-fma", ["--seed", seed, "--lambda", 128, "--threads", "8", "--rounds", 1, "--slowjobs", 0], weight=8))
         jobs.append(j("longrun-spqlios-fma", "optim", "spqlios-fma", ["--seed", seed + 2, "--threads", "1", "--rounds", 1, "--keygen", 0, "--n", 8, "--longrun", 70000], weight=1, timeout=3600))
+        jobs.append(j("longrun-fftw", "optim", "fftw", ["--seed", seed + 2, "--threads", "1,2", "--rounds", 1, "--keygen", 0, "--n", 8, "--longrun", 70000], weight=1, timeout=3600))
         jobs.append(j("longrun-nayuki-portable", "optim", "nayuki-portable", ["--seed", seed + 2, "--threads", "1", "--rounds", 1, "--keygen", 0, "--n", 8, "--longrun", 3000], weight=1, timeout=3600))
         for be in vbuild.BACKENDS:
             jobs.append(j("cmp-detached-%s" % be, "optim", be, ["--seed", seed, "--detached", 1, "--threads", "2,4,6,8,16", "--rounds", 6, "--slowjobs", 0], weight=8))
